@@ -103,9 +103,20 @@ func main() {
 			exports[p.ImportPath] = p.Export
 		}
 	}
-	blocking := map[string]bool{}
-	for _, b := range cfg.Blocking {
-		blocking[b] = true
+	// entries are either "qualified.Name" (all packages) or "import/path/prefix=>qualified.Name"
+	// (only while instrumenting packages below that prefix)
+	blockingFor := func(importPath string) map[string]bool {
+		m := map[string]bool{}
+		for _, b := range cfg.Blocking {
+			if i := strings.Index(b, "=>"); i >= 0 {
+				if strings.HasPrefix(importPath, b[:i]) {
+					m[b[i+2:]] = true
+				}
+				continue
+			}
+			m[b] = true
+		}
+		return m
 	}
 	plain := map[string]bool{}
 	for _, p := range cfg.PlainVars {
@@ -119,7 +130,7 @@ func main() {
 		if p.Error != nil {
 			die("target %s: %s", tp, p.Error.Err)
 		}
-		instrumentPackage(p, exports, blocking, plain)
+		instrumentPackage(p, exports, blockingFor(p.ImportPath), plain)
 	}
 	// virtual runtime package
 	ents, err := os.ReadDir(cfg.SimrtDir)
